@@ -146,12 +146,30 @@ func (u *PsipURI) Truncate() {
 func (u *PsipURI) AdjustOffs(newpos PField) bool {
 	offs := newpos.Offs // new start
 	end := offs + newpos.Len
-	if (u.Scheme.Len + u.User.Len + u.Pass.Len + u.Host.Len + u.Port.Len +
-		u.Params.Len + u.Headers.Len) > newpos.Len {
+	// length needed: from the scheme start to the end of the last component
+	// that is set (delimiters included)
+	need := u.Scheme.Len
+	if u.User.Offs != 0 {
+		need = u.User.Offs - u.Scheme.Offs + u.User.Len
+	}
+	if u.Pass.Offs != 0 {
+		need = u.Pass.Offs - u.Scheme.Offs + u.Pass.Len
+	}
+	if u.Host.Offs != 0 {
+		need = u.Host.Offs - u.Scheme.Offs + u.Host.Len
+	}
+	if u.Port.Offs != 0 {
+		need = u.Port.Offs - u.Scheme.Offs + u.Port.Len
+	}
+	if u.Params.Offs != 0 {
+		need = u.Params.Offs - u.Scheme.Offs + u.Params.Len
+	}
+	if u.Headers.Offs != 0 {
+		need = u.Headers.Offs - u.Scheme.Offs + u.Headers.Len
+	}
+	if need > newpos.Len {
 		if DBGon() {
-			DBG("AdjustOffs: %d > %d\n",
-				u.Scheme.Len+u.User.Len+u.Pass.Len+u.Host.Len+u.Port.Len+
-					u.Params.Len+u.Headers.Len, newpos.Len)
+			DBG("AdjustOffs: %d > %d\n", need, newpos.Len)
 		}
 		return false
 	}
